@@ -329,6 +329,9 @@ fn bezier_oracle<S: Fl>(
         orc.check(worst <= dev_tol, &cl(&format!("{}/near-ellipse", kind)), cls_dev, || {
             format!("normalised deviation {:e} bound {:e} (n={} step={} cancellation-estimate {:e})", worst, dev_tol, n, step, amp)
         });
+        // 0.03 x |step|: for quadratics this is the bound PROVED for exact arithmetic in Props/C13e.lean
+        // (`quad_angular_offset_real`, `arc_quads_angular_offset_real`; measured maximum 5.43e-3 x |step|);
+        // for cubics it is still a measured bound (maximum 3.89e-3 x |step|)
         let ang_tol = 0.03 * step.abs() + 1e-3 + 64.0 * S::EPS * (1.0 + start.abs() + sweep.abs()) + tol / e.rmin() + amp;
         orc.check(worst_ang <= ang_tol || tiny, &cl(&format!("{}/direction", kind)), "generic", || {
             format!("angular offset {:e} tol {:e}", worst_ang, ang_tol)
